@@ -7,7 +7,9 @@
   L   lemmas over the postconditions: ids of different households / family units never collide
       (a*100+x = b*100+y, 0<=x,y<100 => a=b and x=y), nesting bg within fg, wthh within hh
   Q   vacuity canaries: the hypothesis sets (pre, pre+inv) are not refutable
-  F   fg_id_numpy (two loops over a dict of lists: outside E2): bounded-EXHAUSTIVE over all typed
+  S   fg_id_numpy stage 1: E2 VCs of its index-building loop (dict of lists as (domain, element arrays,
+      lengths)): p_id_to_index inverts p_id, children[x] lists exactly the persons naming x as a parent
+  F   fg_id_numpy as a whole (second loop: nested loop over concatenated lists, outside E2): bounded-EXHAUSTIVE over all typed
       pointer structures up to isomorphism and ALL row orders up to 4 persons (quick) / 5 persons
       (thorough) -- the bound the property itself names -- against specs/groupings_spec.py;
       labelled bounded, never counted as proved
@@ -28,6 +30,11 @@ from vt import kernels, par, solve
 from vt.report import ASSUMPTIONS, Report
 
 PROVED = ["eg_id_numpy", "ehe_id_numpy", "sn_id_numpy", "bg_id_numpy", "wthh_id_numpy"]
+# contracts of single stages of a kernel that is not proved as a whole: fg_id_numpy's index-building loop
+# (p_id_to_index inverts p_id; children lists sound, complete, never empty; no KeyError / IndexError), unbounded N.
+# A stage contract speaks about internal state, so a refuted stage obligation is a violation only together with
+# a failing input of the whole kernel from the bounded-exhaustive run F; otherwise it is undecided.
+STAGES = ["fg_id_numpy#index"]
 
 
 def _vc_worker(name):
@@ -248,10 +255,10 @@ def run(tier="quick", seed=0, jobs=16):
     rep = Report("C12", tier, seed, "proof")
     rep.assumptions = [ASSUMPTIONS["T"], "VALID: p_id unique and >= 0; partner/spouse pointers are -1 or an existing p_id other than one's own and symmetric; Einstandspartner share hh_id; fewer than 100 self-sufficient children per Familiengemeinschaft; hh_id, fg_id >= 0",
                        "python ints are mathematical integers; dict / Counter / list modelled as (domain, value) arrays / total map / (array, length)",
-                       "fg_id_numpy is NOT proved: bounded-exhaustive up to " + ("4" if tier == "quick" else "5") + " persons (typed structures up to isomorphism x all row orders)"]
+                       "fg_id_numpy as a whole is NOT proved (only the contract of its first loop is): bounded-exhaustive up to " + ("4" if tier == "quick" else "5") + " persons (typed structures up to isomorphism x all row orders)"]
     rep.trusted = ["numpy.asarray(list) keeps the elements in order", "enumerate / dict / Counter / list.append semantics as modelled in vt/loopvc.py", "z3 5.1.0 (quantifier instantiation)"]
     # V: proofs
-    results = par.pmap(_vc_worker, PROVED, jobs)
+    results = par.pmap(_vc_worker, PROVED + STAGES, jobs)
     lost = {}
     for st, name, res in results:
         if st != "ok":
@@ -262,6 +269,8 @@ def run(tier="quick", seed=0, jobs=16):
             continue
         rep.functions.add(f"{res['info']['where']} {name}")
         for oname, status, backend, secs, reason in res["res"]:
+            if name in STAGES and status == "refuted":
+                status, reason = "unknown", "stage contract (internal state) fails; decided only by a failing input of the whole kernel in the bounded run F"
             rep.ob(oname, status, backend, secs, res["info"]["where"], "vc", reason)
             if status != "discharged":
                 lost.setdefault(name, []).append((oname, status))
@@ -328,7 +337,7 @@ def run(tier="quick", seed=0, jobs=16):
                 if sig not in fg_bad:
                     fg_bad[sig] = {"kernel": "fg_id_numpy", "inputs": {k: v.tolist() for k, v in dd.items()}, "got": sorted(map(sorted, got)), "expected": sorted(map(sorted, exp)), "row_order": list(perm), "n": n}
     rep.bounded["fg_id_numpy_random"] = {"evaluations": n_rand, "distinct_nontrivial": n_rand // 6, "rule": "seeded random unambiguous structures with 6-8 persons, up to 3 households, random p_id labels, 6 random row orders each; distinct = structures"}
-    rep.functions.add("src/_gettsim/groupings.py:101 fg_id_numpy (bounded exhaustive, not proved)")
+    rep.functions.add("src/_gettsim/groupings.py:101 fg_id_numpy (stage 1 = index-building loop by contract; the kernel as a whole bounded exhaustive, not proved)")
     for b in bad + bad2:
         rep.violation(f"{b['kernel']}:spec-mismatch", f"{b['kernel']} on {b['inputs']} gives {b['got']}, expected {b.get('expected')}", b, True)
     for sig, ex in sorted(fg_bad.items()):
@@ -342,8 +351,10 @@ def run(tier="quick", seed=0, jobs=16):
         if refuted:
             rep.violation(f"{name}:{refuted[0]}", f"obligation refuted: {refuted[0]}", {"obligation": refuted[0], "all": what}, failing_input_found=False)
     # obligations lost for a kernel whose bounded run found a failing input are decided (violation)
+    if fg_bad:
+        failing_kernels.add("fg_id_numpy")
     if failing_kernels:
-        rep.undecided = [u for u in rep.undecided if not any(u.startswith(k + ":") for k in failing_kernels)]
+        rep.undecided = [u for u in rep.undecided if not any(u.startswith(k + ":") or u.startswith(k + "#") for k in failing_kernels)]
     if rep.crashed:
         rep.finish()
         return 3
